@@ -18,7 +18,7 @@ func checkC04(r *Run) {
 		"(b) GATE the level gate (*Logger).should, as a path table: every admitting path carries lvl>=l.level and lvl>=GlobalLevel(), every rejecting path carries lvl<l.level, lvl<GlobalLevel() or a nil writer, " +
 		"the sampler is called only after both comparisons and only when sampling is enabled; (*Logger).newEvent returns nil exactly on should()==false and calls done(\"\") there; " +
 		"(c) WITHLEVEL no os.Exit/panic closure reachable from WithLevel, each arm creates the event with the switched level, the level entry points pass their own constant; " +
-		"(d) WLEVEL the writer receives the Event.level field, stored only from newEvent's parameter and by Discard; (d') TLW (C15's framing rules) the level byte of a line held by TriggerLevelWriter is byte(l) and is re-emitted as Level(line[0]), a bit-preserving round trip also for negative levels; (e) LVLTAB ParseLevel pairs every declared Level constant with itself and has the exact numeric fallback. Contradiction rule nil-test-before-use: a pointer parameter that a function tests against nil is not dereferenced where the test has not been passed yet. FANOUT keeps-every-writer: each writer given to MultiLevelWriter becomes exactly one destination; GATE always-delegates: the package-level log.Panic()/log.Fatal() go through the Logger methods on every path."
+		"(d) WLEVEL the writer receives the Event.level field, stored only from newEvent's parameter and by Discard; (d') TLW (C15's framing rules) the level byte of a line held by TriggerLevelWriter is byte(l) and is re-emitted as Level(line[0]), a bit-preserving round trip also for negative levels; (e) LVLTAB ParseLevel pairs every declared Level constant with itself and has the exact numeric fallback. Contradiction rule nil-test-before-use: a pointer parameter that a function tests against nil is not dereferenced where the test has not been passed yet. FANOUT keeps-every-writer: each writer given to MultiLevelWriter becomes exactly one destination; GATE always-delegates: the package-level log.Panic()/log.Fatal() go through the Logger methods on every path. GATE decided-once: the gate decides when the event is created; nothing reachable from a method of *Event reads the global level. A13 (shared with C06): a pooled event is put at most once and not used afterwards — two live events sharing one struct hand the writer each other's level."
 	r.NotDec = "Nothing value-level remains: with two comparisons on int8 operands the 256x256x136 table is determined by operator and operands. User samplers/hooks are outside."
 	r.Assume = []string{"user code reached through Sampler.Sample / done callbacks is outside the claim", "go/ssa lowers && and || into separate If blocks (checked by path enumeration, not by syntax)"}
 	p := r.Use("J")
@@ -41,6 +41,8 @@ func checkC04(r *Run) {
 	ruleTLWFrame(r, p)
 	ruleMultiKeepsEveryWriter(r, p, "FANOUT") // a writer dropped by the constructor never sees an event, whatever its level
 	ruleGlobalPanicFatalDelegate(r, p, "GATE")
+	ruleEventPathIgnoresGlobalLevel(r, p, "GATE")
+	ruleA13(r, p, map[string]bool{"": true}, "ab") // an event put twice is owned by two callers: the writer receives another event's level (C06's rule)
 	ruleLevelTables(r, p)
 	r.Floor("A9", 60)
 	r.Floor("GATE", 4)
